@@ -1525,6 +1525,7 @@ type conc struct {
 	e       *env
 	stop    atomic.Bool
 	pauseGC atomic.Bool
+	gcMu    sync.Mutex // held by the collector around a pass and by the feeder around its strict quiescent probe
 	wg      sync.WaitGroup
 	slots   []atomic.Pointer[rdr]
 }
@@ -1613,10 +1614,14 @@ func (c *conc) collector() {
 	rng := e.run.Rand(e.key + "/collector")
 	for !c.stop.Load() && !e.stopped() {
 		time.Sleep(time.Duration(100+rng.Intn(3000)) * time.Microsecond)
-		if c.pauseGC.Load() {
-			continue
+		// check-and-collect is one step with respect to the feeder's quiescent probe: without the
+		// lock the collector could read pauseGC == false, be descheduled, and start its pass after
+		// the feeder had seen "no pass running" (a false alarm of the monitor, seen once in a thorough run)
+		c.gcMu.Lock()
+		if !c.pauseGC.Load() {
+			e.gc()
 		}
-		e.gc()
+		c.gcMu.Unlock()
 	}
 }
 
@@ -1836,6 +1841,7 @@ func (c *conc) feedConcurrently(w *wr, total int64) {
 		if probeAt >= 0 && fed >= probeAt {
 			probeAt = -1
 			c.pauseGC.Store(true)
+			c.gcMu.Lock()
 			for e.gcSeq.Load()%2 == 1 {
 				runtime.Gosched()
 			}
@@ -1843,6 +1849,7 @@ func (c *conc) feedConcurrently(w *wr, total int64) {
 				e.feat("conc.quiescent-probe")
 				e.probe("quiescent point inside a concurrent history")
 			}
+			c.gcMu.Unlock()
 			c.pauseGC.Store(false)
 		}
 	}
